@@ -1,8 +1,29 @@
 import ApolloModel.Model.Proto
-open Apollo Apollo.Proto
+import ApolloModel.Model.SchemaInvariants
+import Driver.D14
+open Apollo Apollo.Proto Apollo.SchemaValidation Apollo.SchemaInvariants
 namespace Driver
 
-/-- streams of property C15 are named `c15.<name>` -/
-def c15 (_stream : String) (_fs : List String) : String := "unknown-stream"
+/- streams of property C15 are named `c15.<name>` (cases written by harness/src/p15.rs) -/
+
+/-- `name;b|u;s|o;ref,ref` -/
+def decodeScalarsType (s : String) : Scalars.Name × Scalars.TypeDef :=
+  match s.splitOn ";" with
+  | [n, b, k, refs] => (n, { isBuiltIn := b == "b", isScalar := k == "s", refs := (refs.splitOn ",").filter (· ≠ "") })
+  | _ => ("", { isBuiltIn := false, isScalar := false, refs := [] })
+
+def bit (b : Bool) : String := if b then "1" else "0"
+
+def c15 (stream : String) (fs : List String) : String :=
+  match stream, fs.map fun f => String.ofList (decodeField f) with
+  | "c15.inv", [q, m, sub, imp, ig, types, drefs] =>
+    let s : ISchema := if imp == "" then [] else (imp.splitOn "|").map decodeTypeInfo
+    let g : IGraph := if ig == "-" then [] else decodeIGraph ig
+    let sc : Scalars.Schema :=
+      { types := if types == "" then [] else (types.splitOn "|").map decodeScalarsType,
+        directiveRefs := (drefs.splitOn ",").filter (· ≠ "") }
+    bit (rootsInv (decodeRoot q) (decodeRoot m) (decodeRoot sub)) ++ bit (implementsKindInv s) ++ bit (transInv s)
+      ++ bit (inputInv g) ++ bit (scalarsInv sc)
+  | _, _ => "bad-case"
 
 end Driver
